@@ -29,6 +29,19 @@ def solve_args(problem):
     return (problem["problem"],), {"n": problem["n"]}
 
 
+def extra_search_problems(rng):
+    """9 x 9 boards with at most three blanks (small enough for the rule differential), called with the default n."""
+    n, size = 3, 9
+    base = [[(n * (y % n) + y // n + x) % size + 1 for x in range(size)] for y in range(size)]
+    out = []
+    for blanks in (0, 2, 3):
+        pb = [row[:] for row in base]
+        for _ in range(blanks):
+            pb[rng.randrange(size)][rng.randrange(size)] = 0
+        out.append({"n": 3, "problem": pb, "default_n": True})
+    return out
+
+
 def extra_program_problems(rng):
     """Instances used for the program correspondence only (too large for the brute-force rule differential): the standard
     9 x 9 board, called WITHOUT `n`."""
